@@ -91,6 +91,9 @@ func readIndices(r io.Reader, version byte, binLimit uint32) ([]refIndex, error)
 	if n == 0 {
 		return nil, nil
 	}
+	if n < 0 {
+		return nil, fmt.Errorf("csi: invalid reference count: %d", n)
+	}
 	idx := make([]refIndex, n)
 	for i := range idx {
 		idx[i].bins, idx[i].stats, err = readBins(r, version, binLimit)
@@ -169,6 +172,9 @@ func readChunks(r io.Reader, n int32) ([]bgzf.Chunk, error) {
 		vOff uint64
 		err  error
 	)
+	if n < 0 {
+		return nil, fmt.Errorf("csi: invalid chunk count: %d", n)
+	}
 	chunks := make([]bgzf.Chunk, n)
 	for i := range chunks {
 		err = binary.Read(r, binary.LittleEndian, &vOff)
